@@ -64,39 +64,20 @@ pub fn validate_tag_path<T: EbmlSpecification<T> + EbmlTag<T> + Clone>(tag_id: u
 }
 
 fn path_matches(path: &[PathPart], doc_path: impl Iterator<Item = u64>) -> bool {
-    let mut path_marker = 0;
-    let mut global_counter = 0;
-    for current_node_id in doc_path {
-        if path_marker >= path.len() {
-            return false;
-        }
+    let doc_path: Vec<u64> = doc_path.collect();
+    path_matches_slice(path, &doc_path)
+}
 
-        match path[path_marker] {
-            PathPart::Id(id) => {
-                if id != current_node_id {
-                    return false;
-                }
-                path_marker += 1;
-            },
-            PathPart::Global((min, max)) => {
-                global_counter += 1;
-                if max.is_some() && global_counter > max.unwrap_or_default() {
-                    return false;
-                }
-                if path.len() > (path_marker + 1) && matches!(path[path_marker + 1], PathPart::Id(id) if id == current_node_id) {
-                    if min.is_some() && global_counter < min.unwrap_or_default() {
-                        return false;
-                    }
-                    path_marker += 2;
-                    global_counter = 0;
-                }
-            },
+// `path` is a pattern over the chain of open masters: an Id matches exactly that master, a Global (min-max) matches between min and max arbitrary masters, and the whole chain must be consumed
+fn path_matches_slice(path: &[PathPart], doc_path: &[u64]) -> bool {
+    match path.first() {
+        None => doc_path.is_empty(),
+        Some(PathPart::Id(id)) => doc_path.first() == Some(id) && path_matches_slice(&path[1..], &doc_path[1..]),
+        Some(PathPart::Global((min, max))) => {
+            let available = doc_path.len() as u64;
+            let min = min.unwrap_or(0);
+            let max = max.unwrap_or(available).min(available);
+            (min..=max).any(|skipped| path_matches_slice(&path[1..], &doc_path[(skipped as usize)..]))
         }
     }
-
-    // Validate that we compared ALL parents in the path
-    path.len() == path_marker || 
-    // or that the last parent was a global whose minimum was met
-        ((path.len() - 1) == path_marker && matches!(path[path_marker], PathPart::Global((min, _)) if global_counter >= min.unwrap_or(0)))
-    
 }
